@@ -942,7 +942,30 @@ def run_c(rep, tier, deadline):
 # that list + the returned reply, other threads untouched.
 D_ALPHABET = [("T1", ("m1",), None), ("T1", ("C", "m1"), None), ("T2", ("m2",), None), ("T1", ("C", "m2"), {"log": {"activated_rails": True}}),
               ("T2", ("m1",), {"rails": {"output": False}}), ("none", ("C", "m1"), None)]
+D_ALPHABET_REWRITING = [D_ALPHABET[0], D_ALPHABET[2], D_ALPHABET[1]]
 _D_CALLS = []
+# configurations served in part D: "real" = plain; "pass" = passthrough mode with an input rail that rewrites the user message (what the
+# sensitive-data masking rails do); "mask" = the same rail without passthrough.  What a rail does to the text is the instance's business -
+# the thread the server stores is still the messages it handed over plus the reply.
+D_CONFIGS = {
+    "real": ("", None),
+    "pass": ("passthrough: true\nrails:\n  input:\n    flows:\n      - mask user message\n",
+             "define subflow mask user message\n  $user_message = \"<masked>\"\n"),
+    "mask": ("rails:\n  input:\n    flows:\n      - mask user message\n",
+             "define subflow mask user message\n  $user_message = \"<masked>\"\n"),
+}
+
+
+def d_setup():
+    from vf.engines.world import EMB_YAML
+    for name, (yaml, co) in D_CONFIGS.items():
+        p = os.path.join(_W.base, "rootd", name)
+        os.makedirs(p, exist_ok=True)
+        with open(os.path.join(p, "config.yml"), "w") as f:
+            f.write(EMB_YAML + yaml)
+        if co:
+            with open(os.path.join(p, "rails.co"), "w") as f:
+                f.write(co)
 
 
 def _real_rails_class():
@@ -954,7 +977,7 @@ def _real_rails_class():
         def __init__(self, config=None, verbose=False, **kw):
             llm = ScriptedLLM()
             llm.calls = []
-            llm.responder = lambda task, prompt, i: "REPLY-" + hashlib.sha1(prompt.encode()).hexdigest()[:8]
+            llm.responder = lambda task, prompt, i: "REPLY-" + hashlib.sha1(str(prompt).encode()).hexdigest()[:8]
             super().__init__(config, llm=llm, verbose=False)
 
         async def generate_async(self, prompt=None, messages=None, options=None, state=None, streaming_handler=None):
@@ -965,7 +988,8 @@ def _real_rails_class():
     return RealRails
 
 
-def d_task(seqs):
+def d_task(task):
+    cfg, seqs = task
     W = _W
     W.set_mode("multid")
     saved = W.api.LLMRails
@@ -978,14 +1002,14 @@ def d_task(seqs):
             model = {}
             for i, (t, ms, opts) in enumerate(seq):
                 body = b_body((t, ms))
-                body["config_id"] = "real"
+                body["config_id"] = cfg
                 if opts is not None:
                     body["options"] = copy.deepcopy(opts)
                 del _D_CALLS[:]
                 r = _post(body)
                 steps += 1
-                rp = {"part": "D", "sequence": [[a, list(b), c] for a, b, c in seq[:i + 1]]}
-                case = f"real LLMRails instance, request {i + 1} of {[(a, list(b), c) for a, b, c in seq[:i + 1]]}"
+                rp = {"part": "D", "config": cfg, "sequence": [[a, list(b), c] for a, b, c in seq[:i + 1]]}
+                case = f"real LLMRails instance of configuration {cfg!r}, request {i + 1} of {[(a, list(b), c) for a, b, c in seq[:i + 1]]}"
                 if r["kind"] != "reply" or len(r["messages"]) != 1:
                     viols.append((f"thread:real-instance:request-failed:{r.get('type') or r.get('status') or 'reply-shape'}", f"{case}: {ascii(r)[:300]}", rp))
                     break
@@ -1012,8 +1036,14 @@ def d_task(seqs):
 def run_d(rep, tier, deadline):
     d = 2 if tier == "quick" else 3
     seqs = [s for ln in range(1, d + 1) for s in itertools.product(D_ALPHABET, repeat=ln)]
-    chunk = max(1, len(seqs) // (par.NPROC * 2))
-    tasks = [seqs[i:i + chunk] for i in range(0, len(seqs), chunk)]
+    d_setup()
+    # the configurations with a rewriting rail: the three plain request forms (quick), the whole alphabet (thorough)
+    small = [s for ln in range(1, d + 1) for s in itertools.product(D_ALPHABET_REWRITING, repeat=ln)] if tier == "quick" else seqs
+    per_cfg = {cfg: (seqs if cfg == "real" else small) for cfg in D_CONFIGS}
+    rep.set("D_sequences_per_configuration", {cfg: len(v) for cfg, v in sorted(per_cfg.items())})
+    chunk = max(1, sum(len(v) for v in per_cfg.values()) // (par.NPROC * 2))
+    tasks = [(cfg, v[i:i + chunk]) for cfg, v in per_cfg.items() for i in range(0, len(v), chunk)]
+    rep.set("D_configurations", sorted(D_CONFIGS))
     done = 0
     for res in par.pmap(d_task, tasks, chunksize=1, deadline=deadline):
         done += 1
@@ -1023,6 +1053,351 @@ def run_d(rep, tier, deadline):
         for sig, what, rp in sorted(res["viols"], key=lambda v: (len(v[2]["sequence"]), json.dumps(v[2]["sequence"]))):
             _report(rep, sig, what, rp)
     rep.set("D_depth", d)
+    return done == len(tasks)
+
+
+# ------------------------------------------------------------------ part F: thread ids at the limits of what the API accepts
+# Parts B and D use two short ids.  Here the ids are a family of NEAR-EQUAL ids over the whole range of lengths the API accepts
+# (16..255 characters): ids that agree in a long prefix and differ in their last character, ids one of which is a proper prefix
+# of the other, ids that differ only in case / in trailing white space / in Unicode normal form / by a leading "thread-".  For
+# every unordered pair {X, Y} of distinct ids: every sequence of <= 3 requests over {X says m1, Y says m2}, each from a fresh
+# store (the sequences that stay on one id are run once per id); oracle of part B (model keyed by the exact id string).
+F_LENGTHS = (16, 17, 128, 248, 249, 250, 254, 255)
+
+
+def _f_ids():
+    ids = {}
+    fill = "s" * 255
+    for ln in F_LENGTHS:
+        ids[f"L{ln}a"] = fill[:ln - 1] + "a"
+        ids[f"L{ln}b"] = fill[:ln - 1] + "b"
+    for ln in (16, 255):
+        ids[f"L{ln}A"] = fill[:ln - 1] + "A"                      # differs from L<ln>a in case only
+        ids[f"L{ln}a-trailing-space"] = fill[:ln - 2] + "a "       # L<ln-1>a + " "
+        ids[f"L{ln}-nfc"] = fill[:ln - 1] + "\u00e9"                # e-acute, composed
+        ids[f"L{ln}-nfd"] = fill[:ln - 2] + "e\u0301"               # e-acute, decomposed (same text after normalisation)
+    ids["L23-thread-prefixed"] = "thread-" + fill[:15] + "a"       # "thread-" + L16a
+    ids["L255-thread-prefixed"] = "thread-" + fill[:247] + "a"     # "thread-" + L248a
+    assert len(set(ids.values())) == len(ids) and all(16 <= len(v) <= 255 for v in ids.values())
+    return ids
+
+
+F_IDS = _f_ids()
+THREADS.update(F_IDS)
+
+
+def f_task(pairs):
+    W = _W
+    if W.mode != "multi":
+        W.set_mode("multi")
+    viols = []
+    n = steps = second = 0
+    for x, y in pairs:
+        alphabet = [(x, ("m1",)), (y, ("m2",))] if x != y else [(x, ("m1",))]
+        for ln in (1, 2, 3):
+            for seq in itertools.product(alphabet, repeat=ln):
+                if x != y and len({r[0] for r in seq}) < 2:
+                    continue            # sequences on one id only: run once per id (the "pair" (x, x)), not once per pair
+                W.fresh_store()
+                W.reset_case()
+                model = {}
+                for i, req in enumerate(seq):
+                    obs = b_do(req)
+                    steps += 1
+                    if model and req[0] not in model:
+                        second += 1            # first turn of an id while the other id's thread is stored
+                    vs, model = b_judge(model, req, obs)
+                    for sig, what in vs:
+                        viols.append((sig.replace("thread:", "thread:near-equal-ids:", 1),
+                                      f"(thread ids {x}={ascii(F_IDS[x]) if len(F_IDS[x]) < 40 else ascii(F_IDS[x][:8]) + '...' + ascii(F_IDS[x][-8:]) + ' (%d chars)' % len(F_IDS[x])}, "
+                                      f"{y}={ascii(F_IDS[y]) if len(F_IDS[y]) < 40 else ascii(F_IDS[y][:8]) + '...' + ascii(F_IDS[y][-8:]) + ' (%d chars)' % len(F_IDS[y])}) " + what,
+                                      {"part": "B", "sequence": [list(map(_jl, p)) for p in seq[:i + 1]]}))
+                    if vs:
+                        break
+                n += 1
+    return {"n": n, "steps": steps, "second": second, "viols": viols}
+
+
+def run_f(rep, tier, deadline):
+    names = sorted(F_IDS)
+    pairs = list(itertools.combinations(names, 2)) + [(x, x) for x in names]
+    if rep.seed:
+        random.Random(rep.seed).shuffle(pairs)
+    chunk = max(1, len(pairs) // (par.NPROC * 3))
+    tasks = [pairs[i:i + chunk] for i in range(0, len(pairs), chunk)]
+    done = 0
+    collected = []
+    for res in par.pmap(f_task, tasks, chunksize=1, deadline=deadline):
+        done += 1
+        rep.add("F_sequences_over_a_pair_of_near_equal_thread_ids", res["n"])
+        rep.add("traces_validated_against_impl", res["n"])
+        rep.add("F_requests", res["steps"])
+        rep.add("F_first_turns_of_an_id_next_to_the_other_ids_thread", res["second"])
+        rep.add("evaluations", res["steps"])
+        collected.extend(res["viols"])
+    for sig, what, rp in sorted(collected, key=lambda v: (len(v[2]["sequence"]), json.dumps(v[2]["sequence"]))):
+        _report(rep, sig, what, rp)
+    rep.set("F_thread_ids", {k: len(v) for k, v in sorted(F_IDS.items())})
+    rep.set("F_id_pairs", len(pairs) - len(names))
+    return done == len(tasks)
+
+
+# ------------------------------------------------------------------ part E: the root as configured through the `server` command
+# Parts A-D set `app.rails_config_path` themselves.  An operator configures the root with `nemoguardrails server [--config <dir>]
+# [--default-config-id <id>]`; "its configured root" is the folder named there (or ./config of the working directory when the
+# option is absent).  Here the real command runs (typer CliRunner, uvicorn.run replaced by a recorder), then the app it hands to
+# uvicorn is started (start-up hooks run through the TestClient) and is asked for every id of <= 2 tokens (tokens of part A that
+# are not RARE_IN_QUICK in the quick tier, all tokens in the thorough tier) as `config_id`, as ['<valid id>', id] and with no id
+# at all.  Oracle of part A with the root = realpath of the folder the operator named: a root that is a configuration itself
+# (config.yml / config.yaml in it) may only ever load that folder; a root that holds configurations only loads directories below it.
+E_TREE = ["root/cfg1", "root/cfg2", "cwdm/config/cfg1", "cwdm/config/cfg2", "cwdm/cfg1", "cwds/config", "cwds/cfg1", "cwds/cfg2",
+          "rooty/cfg1", "rooty/cfg2"]     # rooty/cfg1 holds config.yaml instead of config.yml
+# (name, working directory, --config argument or None, --default-config-id or None, configured root, is the root a configuration)
+E_CLI = [
+    ("multi-abs", ".", "@root", None, "root", False),
+    ("multi-abs-default-id", ".", "@root", "cfg1", "root", False),
+    ("multi-abs-trailing-slash", ".", "@root/", None, "root", False),
+    ("multi-rel", ".", "root", None, "root", False),
+    ("single-abs", ".", "@root/cfg1", None, "root/cfg1", True),
+    ("single-abs-default-id", ".", "@root/cfg1", "cfg1", "root/cfg1", True),
+    ("single-abs-default-id-of-sibling", ".", "@root/cfg1", "cfg2", "root/cfg1", True),
+    ("single-abs-trailing-slash", ".", "@root/cfg1/", None, "root/cfg1", True),
+    ("single-rel", "root", "cfg1", None, "root/cfg1", True),
+    ("single-rel-dotted", "root/cfg2", "../cfg1", None, "root/cfg1", True),
+    ("single-yaml-abs", ".", "@rooty/cfg1", None, "rooty/cfg1", True),
+    ("local-config-folder-multi", "cwdm", None, None, "cwdm/config", False),
+    ("local-config-folder-single", "cwds", None, None, "cwds/config", True),
+    ("local-config-folder-single-default-id", "cwds", None, "cfg1", "cwds/config", True),
+]
+_E_APP_DEFAULTS = {}
+
+
+def e_setup():
+    """additional folders of the scratch tree; the command's module imported before the fork"""
+    from nemoguardrails import cli  # noqa: F401
+    from typer.testing import CliRunner  # noqa: F401
+    for d in E_TREE:
+        p = os.path.join(_W.base, d)
+        os.makedirs(p, exist_ok=True)
+        name = "config.yaml" if d == "rooty/cfg1" else "config.yml"
+        if not os.path.exists(os.path.join(p, "config.yml")):
+            with open(os.path.join(p, name), "w") as f:
+                f.write("models: []\ninstructions:\n  - type: general\n    content: \"marker %s\"\n" % d)
+
+
+def e_start(case):
+    """run the real command as a new server process would: -> (ok, detail, server app handed to uvicorn)"""
+    name, cwd, config, default_id, _root, _single = case
+    api = _W.api
+    import uvicorn
+    from typer.testing import CliRunner
+    from nemoguardrails import cli
+    # what a new process starts from
+    api.app.rails_config_path = _W._saved["app"]["rails_config_path"]
+    api.app.single_config_mode = False
+    api.app.single_config_id = None
+    api.app.default_config_id = None
+    args = ["server", "--disable-chat-ui"]
+    if config is not None:
+        args += ["--config", os.path.join(_W.base, config[1:]) if config.startswith("@") else config]
+    if default_id is not None:
+        args += ["--default-config-id", default_id]
+    handed = []
+    saved_run, saved_cwd = uvicorn.run, os.getcwd()
+    uvicorn.run = lambda a, **kw: handed.append(a)
+    os.chdir(os.path.join(_W.base, cwd))
+    try:
+        r = CliRunner().invoke(cli.app, args)
+    finally:
+        uvicorn.run = saved_run
+    # the working directory stays: a relative root is relative to it for the life of the server process
+    if r.exit_code != 0 or len(handed) != 1:
+        os.chdir(saved_cwd)
+        return False, f"exit code {r.exit_code}, exception {r.exception!r}, output {r.output[-200:]!r}, apps handed to uvicorn.run: {len(handed)}", None, saved_cwd
+    return True, args, handed[0], saved_cwd
+
+
+def e_request(client, form, ids, eff_ids):
+    """one request -> observation like a_eval's; eff_ids = the ids the server has to act on (default id for a request without id)"""
+    W = _W
+    W.reset_case()
+    body = {"messages": USER_MSG}
+    if form == "single":
+        body["config_id"] = ids[0]
+    elif form != "absent":
+        body["config_ids"] = list(ids)
+    try:
+        with warnings.catch_warnings():
+            warnings.simplefilter("ignore")
+            r = client.post("/v1/chat/completions", content=json.dumps(body), headers={"content-type": "application/json"})
+    except Exception as e:
+        obs = {"kind": "exc", "type": type(e).__name__, "where": _where(e), "msg": str(e)[:200]}
+    else:
+        if r.status_code != 200:
+            obs = {"kind": "status", "status": r.status_code, "text": r.text[:200]}
+        else:
+            try:
+                msgs = r.json()["messages"]
+            except Exception:
+                msgs = None
+            content = msgs[0].get("content") if msgs and len(msgs) == 1 and isinstance(msgs[0], dict) else None
+            if content == FIXED.format(ids=list(eff_ids)):
+                obs = {"kind": "rejected"}
+            elif msgs and FakeRails.calls and msgs == [fake_reply(FakeRails.calls[-1])]:
+                obs = {"kind": "served", "served_by": list(FakeRails.served_by[-1])}
+            else:
+                obs = {"kind": "other-reply", "content": ascii(r.text)[:200]}
+    obs["loads"] = list(W.loads)
+    obs["constructed"] = len(FakeRails.constructed)
+    return obs
+
+
+def _e_where(rp, root):
+    if os.path.dirname(rp) == os.path.dirname(root):
+        return "sibling-of-the-configured-root"
+    if _inside(root, rp):
+        return "ancestor-of-the-configured-root"
+    if rp.startswith(root):
+        return "prefix-sharing-sibling"
+    return "elsewhere"
+
+
+def e_judge(case, form, ids, eff_ids, obs):
+    name, cwd, config, default_id, root_rel, single = case
+    root = os.path.realpath(os.path.join(_W.base, root_rel))
+    kindname = "single" if single else "multi"
+    what0 = (f"`nemoguardrails server{'' if config is None else ' --config ' + (config.replace('@', '<base>/'))}"
+             f"{'' if default_id is None else ' --default-config-id ' + default_id}` run in <base>/{cwd} (configured root <base>/{root_rel}, "
+             f"{'a configuration itself' if single else 'a folder of configurations'}), request {form} ids={ascii(list(ids))}")
+    out = []
+    for p in obs["loads"]:
+        rp = _realpath(os.path.join(os.getcwd(), p))
+        if not _inside(rp, root):
+            out.append((f"cli-server:load-outside-configured-root:{kindname}:{_e_where(rp, root)}",
+                        f"{what0}: RailsConfig.from_path({ascii(p)}) resolves to {ascii(rp)}, which is not inside the configured root (outcome: {obs['kind']})"))
+            break
+        if single and rp != root:
+            out.append((f"cli-server:load-of-a-folder-below-a-single-config-root",
+                        f"{what0}: RailsConfig.from_path({ascii(p)}) resolves to {ascii(rp)}; the configured root is one configuration (outcome: {obs['kind']})"))
+            break
+        if not single and rp == root:
+            out.append((f"cli-server:load-of-the-root-itself:{kindname}", f"{what0}: RailsConfig.from_path({ascii(p)}) loads the root folder itself (outcome: {obs['kind']})"))
+            break
+        if os.path.isfile(rp):
+            out.append((f"cli-server:load-of-a-file:{kindname}", f"{what0}: RailsConfig.from_path({ascii(p)}) loads a file (outcome: {obs['kind']})"))
+            break
+    k = obs["kind"]
+    no_id = len(eff_ids) == 0
+    if k == "exc":
+        if not (no_id and obs["type"] == "GuardrailsConfigurationError") or NO_ID_ERROR_IS_VIOLATION:
+            out.append((f"cli-server:unhandled:{obs['type']}:{obs['where']}", f"{what0}: unhandled {obs['type']} ({obs['msg']}) raised in {obs['where']}"))
+    elif k == "status":
+        out.append((f"cli-server:http-status:{obs['status']}", f"{what0}: HTTP {obs['status']} {obs['text']}"))
+    elif k == "other-reply":
+        out.append(("cli-server:unexpected-reply", f"{what0}: neither the fixed reply nor a served reply: {obs['content']}"))
+    elif k == "served":
+        need = 1 if single else len(eff_ids)
+        if len(obs["loads"]) != need or obs["constructed"] != 1:
+            out.append((f"cli-server:served-without-recorded-load:{kindname}", f"{what0}: served although {len(obs['loads'])} load(s) were recorded (expected {need})"))
+    root_name = os.path.basename(root)
+    valid = list(eff_ids) == [root_name] if single else (len(eff_ids) > 0 and all(i in ("cfg1", "cfg2") for i in eff_ids))
+    if valid and k == "rejected":
+        out.append((f"cli-server:valid-id-not-served:{kindname}", f"{what0}: the configuration the operator configured was refused"))
+    if valid and k == "served" and len(eff_ids) == 1:
+        exp = ["marker " + (root_rel if single else root_rel + "/" + i) for i in eff_ids]
+        if sorted(obs.get("served_by") or []) != sorted(exp):
+            out.append((f"cli-server:served-by-another-configuration:{kindname}", f"{what0}: served by an instance built from {obs.get('served_by')}, expected {exp}"))
+    return out
+
+
+def e_task(task):
+    case, tuples = task
+    name, cwd, config, default_id, root_rel, single = case
+    W = _W
+    counts = {"E_command_runs": 1}
+    viols = []
+    sample = None
+
+    def bump(k, n=1):
+        counts[k] = counts.get(k, 0) + n
+
+    ok, detail, server_app, saved_cwd = e_start(case)
+    if not ok:
+        return {"counts": counts, "viols": [("cli-server:command-failed", f"case {name}: {detail}", {"part": "E", "cli": name, "form": "-", "ids_tokens": []})], "sample": None}
+    try:
+        from fastapi.testclient import TestClient
+        valid_id = os.path.basename(root_rel) if single else "cfg1"
+        with TestClient(server_app) as client:          # runs the start-up hooks of the app handed to uvicorn
+            api = W.api
+            bump("E_servers_started")
+            if bool(api.app.single_config_mode) == bool(single):
+                bump("E_servers_in_the_mode_the_configured_root_calls_for")
+            reqs = [("absent", (), None)]
+            for tup in tuples:
+                s = W.render(tup)
+                reqs.append(("single", (s,), tup))
+                reqs.append(("list2-second", (valid_id, s), tup))
+            for form, ids, tup in reqs:
+                eff = ids
+                if form == "absent" or (form == "single" and ids[0] == ""):
+                    eff = (default_id,) if default_id is not None else ()
+                obs = e_request(client, form, ids, eff)
+                bump("evaluations")
+                bump("E_requests")
+                bump(f"E_{'single' if single else 'multi'}_{obs['kind']}")
+                bump("E_from_path_calls", len(obs["loads"]))
+                if obs["loads"]:
+                    bump("E_requests_reaching_a_load")
+                for sig, what in e_judge(case, form, ids, eff, obs):
+                    bump("E_violating_cases")
+                    viols.append((sig, what, {"part": "E", "cli": name, "form": form,
+                                              "ids_tokens": [TOKENS[i][0] for i in tup] if tup is not None else [], "observed": obs}))
+                if sample is None and obs["loads"] and tup is not None:
+                    sample = {"part": "E", "cli": name, "command": detail[:1] + [a.replace(W.base, "<base>") for a in detail[1:]], "form": form,
+                              "ids": [ascii(i) for i in ids], "outcome": obs["kind"], "from_path": [p.replace(W.base, "<base>") for p in obs["loads"]]}
+    finally:
+        os.chdir(saved_cwd)
+    return {"counts": counts, "viols": viols, "sample": sample}
+
+
+def e_tuples(tier):
+    seen, out = set(), []
+    idx = [i for i in range(len(TOKENS)) if tier != "quick" or TOKENS[i][0] not in RARE_IN_QUICK]
+    for ln in (0, 1, 2):
+        for tup in itertools.product(idx, repeat=ln):
+            s = _W.render(tup)
+            if s not in seen:
+                seen.add(s)
+                out.append(tup)
+    return out
+
+
+def run_e(rep, tier, deadline):
+    tuples = e_tuples(tier)
+    half = (len(tuples) + 1) // 2
+    tasks = [(case, part) for case in E_CLI for part in (tuples[:half], tuples[half:])]
+    if rep.seed:
+        random.Random(rep.seed).shuffle(tasks)
+    done = 0
+    collected = []
+    samples = []
+    for res in par.pmap(e_task, tasks, chunksize=1, deadline=deadline):
+        done += 1
+        rep.merge_counts(res["counts"])
+        collected.extend(res["viols"])
+        if res["sample"]:
+            samples.append(res["sample"])
+    order = {c[0]: i for i, c in enumerate(E_CLI)}
+    if samples:
+        lst = rep.cov.setdefault("samples", [])
+        if len(lst) >= 6:
+            lst.pop()
+        rep.sample(min(samples, key=lambda x: (order[x["cli"]] != order["single-rel"], order[x["cli"]], json.dumps(x["ids"]))))
+    collected.sort(key=lambda v: (len(v[2]["ids_tokens"]), order.get(v[2]["cli"], 0), v[2]["form"] != "single", json.dumps(v[2]["ids_tokens"])))
+    for sig, what, rp in collected:
+        _report(rep, sig, what, rp)
+    rep.set("E_command_lines", [c[0] for c in E_CLI])
+    rep.set("E_distinct_ids", len(tuples))
     return done == len(tasks)
 
 
@@ -1046,19 +1421,36 @@ def run(rep, tier):
             "rails cache kept between the requests of a sequence; oracle = the answer of a server that has seen no other request",
             "part D: the endpoint builds REAL LLMRails objects (scripted LLM, fake embedding engine) for the configuration rootd/real; every sequence of <= 2 (quick) / 3 (thorough) "
             "requests over D_ALPHABET (threads T1/T2/none, context, per-request options); oracle of part B on the messages handed to generate_async and on the store",
+            "part E: the real `nemoguardrails server` command (typer CliRunner; uvicorn.run replaced by a recorder; app attributes reset to the module's defaults before each run, as in a new process), "
+            "then the start-up hooks of the app handed to uvicorn; scratch folders E_TREE; the configured root is the folder named by --config (or ./config of the working directory); LLMRails fake as in part A",
+            "part F: thread ids of 16..255 characters (the lengths the API accepts) that are near-equal: common long prefix, differing last character / case / trailing space / Unicode normal form / leading 'thread-'; "
+            "every unordered pair, every sequence of <= 3 requests over (X says m1, Y says m2), each from a fresh store; oracle of part B",
             "part B: MemoryStore whose set() yields to the event loop for 2 ms before it writes (write latency); thread ids T1/T2 (T1 is a prefix of T2), `context` on one request form, one streamed request form (`stream: true`, the fake instance pushes the reply in two chunks); store compared by "
             "content (key naming is free)",
         ]
+        secs = {"setup": round(time.time() - t0, 1)}
+
+        def timed(name, fn, *a):
+            t1 = time.time()
+            r = fn(*a)
+            secs[name] = round(time.time() - t1, 1)
+            return r
+
         a_deadline = t0 + budget * 0.75
-        a_full = run_a(rep, tier, a_deadline)
+        a_full = timed("A", run_a, rep, tier, a_deadline)
         d = 4 if tier == "quick" else 6
-        b_full = run_b_bfs(rep, d, t0 + budget * 0.9)
-        f_full = run_b_fresh(rep, tier, d, t0 + budget)
-        c_full = run_c(rep, tier, t0 + budget * 1.2)
-        c_full = run_d(rep, tier, t0 + budget * 1.4) and c_full
+        b_full = timed("B_bfs", run_b_bfs, rep, d, t0 + budget * 0.9)
+        f_full = timed("B_fresh", run_b_fresh, rep, tier, d, t0 + budget)
+        c_full = timed("C", run_c, rep, tier, t0 + budget * 1.2)
+        c_full = timed("D", run_d, rep, tier, max(t0 + budget * 1.4, time.time() + 25)) and c_full
+        e_setup()
+        c_full = timed("E", run_e, rep, tier, max(t0 + budget * 1.5, time.time() + 25)) and c_full
+        c_full = timed("F", run_f, rep, tier, max(t0 + budget * 1.6, time.time() + 25)) and c_full
+        rep.set("wall_seconds_per_part", secs)
         la = rep.cov.get("A_ids_load_attempted_multi", 0) + rep.cov.get("A_ids_load_attempted_single", 0)
         eg = rep.cov.get("A_ids_escaping_and_guarded_multi", 0) + rep.cov.get("A_ids_escaping_and_guarded_single", 0)
-        rep.set("distinct_nontrivial", la + eg + rep.cov.get("B_transitions_on_a_thread", 0))
+        rep.set("distinct_nontrivial", la + eg + rep.cov.get("B_transitions_on_a_thread", 0) + rep.cov.get("E_requests_reaching_a_load", 0)
+                + rep.cov.get("F_first_turns_of_an_id_next_to_the_other_ids_thread", 0))
         rep.set("rule",
                 "A: every distinct string of <=k tokens (A_token_set) x {multi, single}-config mode, each as config_id, [id], "
                 "['cfg1', id], [id, 'cfg2'] over HTTP and through _get_rails directly. An (id, mode) pair is non-trivial when "
@@ -1066,11 +1458,14 @@ def run(rep, tier):
                 "when root/<id> would resolve outside the root and a guard refused it before any load "
                 "(A_ids_escaping_and_guarded_*); ids with separators that stay inside the root are counted only in evaluations. "
                 "B: BFS over request sequences, state = datastore contents; a transition is non-trivial when it carries a "
-                "thread_id (B_transitions_on_a_thread). distinct_nontrivial is the sum of the three.")
+                "thread_id (B_transitions_on_a_thread). E: the root configured by the real `server` command (E_command_lines) x every id of <= 2 tokens as config_id and as "
+                "['<valid id>', id]; non-trivial = the request reached RailsConfig.from_path (E_requests_reaching_a_load). F: every pair of near-equal thread ids "
+                "(F_thread_ids) x every sequence of <= 3 requests over the pair; non-trivial = the first turn of an id while the other id's thread is stored. "
+                "distinct_nontrivial is the sum of the five.")
         rep.set("exhaustive", bool(a_full and b_full and f_full and c_full))
         if not (a_full and b_full and f_full and c_full):
             rep.set("cap_hit", f"time budget {budget}s: part A tasks {rep.cov.get('A_tasks_done')}/{rep.cov.get('A_tasks_planned')}, "
-                               f"part B depth fully explored {rep.cov.get('B_depth_fully_explored')}/{d}, fresh replays complete={f_full}")
+                               f"part B depth fully explored {rep.cov.get('B_depth_fully_explored')}/{d}, fresh replays complete={f_full}, parts C-F complete={c_full}")
     finally:
         _W.close()
         _W = None
@@ -1092,6 +1487,50 @@ def replay(rp):
             print("observed:", ascii(obs))
             for sig, what in a_judge(mode, channel, form, ids, obs):
                 print("  ->", sig, ":", what)
+        elif rp.get("part") == "C":
+            res = c_task([[tuple(x) for x in rp["sequence"]]])
+            print("sequence of id lists (rails cache kept between them):", rp["sequence"])
+            print("answers of a server that has seen no other request:", res["fresh"])
+            for sig, what, _rp in res["viols"]:
+                print("  ->", sig, ":", what)
+            if not res["viols"]:
+                print("observed: every request answered as by a fresh server")
+        elif rp.get("part") == "D":
+            d_setup()
+            res = d_task((rp.get("config", "real"), [[(a, tuple(b), c) for a, b, c in rp["sequence"]]]))
+            print("configuration:", rp.get("config", "real"), " sequence (thread, new messages, options):", rp["sequence"])
+            print("expected: generate_async is handed stored thread + new messages; stored afterwards = that list + the reply")
+            for sig, what, _rp in res["viols"]:
+                print("  ->", sig, ":", what)
+            if not res["viols"]:
+                print("observed: as expected")
+        elif rp.get("part") == "E":
+            e_setup()
+            case = [c for c in E_CLI if c[0] == rp["cli"]][0]
+            tok = {n: i for i, (n, _v) in enumerate(TOKENS)}
+            s = _W.render(tuple(tok[n] for n in rp["ids_tokens"]))
+            ok, detail, server_app, saved_cwd = e_start(case)
+            print("command:", detail, "run in", os.getcwd() if ok else saved_cwd)
+            if ok:
+                try:
+                    from fastapi.testclient import TestClient
+                    single, default_id = case[5], case[3]
+                    valid_id = os.path.basename(case[4]) if single else "cfg1"
+                    form = rp["form"]
+                    ids = () if form == "absent" else (s,) if form == "single" else (valid_id, s)
+                    eff = ((default_id,) if default_id is not None else ()) if form == "absent" or (form == "single" and s == "") else ids
+                    with TestClient(server_app) as client:
+                        print(f"after start-up: rails_config_path={_W.api.app.rails_config_path!r} single_config_mode={_W.api.app.single_config_mode} "
+                              f"single_config_id={_W.api.app.single_config_id!r} default_config_id={_W.api.app.default_config_id!r}")
+                        obs = e_request(client, form, ids, eff)
+                    print(f"request {form} ids={ascii(list(ids))}")
+                    print("expected: every RailsConfig.from_path argument inside the configured root", os.path.join(_W.base, case[4]),
+                          "(that folder only, when it is a configuration itself), else", ascii(FIXED.format(ids=list(eff))))
+                    print("observed:", ascii(obs))
+                    for sig, what in e_judge(case, form, ids, eff, obs):
+                        print("  ->", sig, ":", what)
+                finally:
+                    os.chdir(saved_cwd)
         else:
             seq = [(t, tuple(ms)) for t, ms in rp["sequence"]]
             _W.set_mode("multi")
